@@ -154,9 +154,95 @@ fn au_case(rng: &mut Rng) -> String {
     format!("{req}\t{obs}")
 }
 
+/// Well-formed SigMF metadata whose numeric fields (every documented one: sample_start, global_index,
+/// header_bytes, sample_count, sample_rate, num_channels, frequencies) take boundary and absurd values relative
+/// to the size of the data: building the source and playing it (twice) must give data or an error, never a panic.
+fn sigmf_extreme(rng: &mut Rng, idx: usize, dir: &std::path::Path, kind: usize) -> String {
+    let dlen = *rng.pick(&[0usize, 1, 7, 64, 1000]);
+    let data: Vec<u8> = (0..dlen).map(|_| rng.below(256) as u8).collect();
+    let ints = [0u64, 1, dlen.saturating_sub(1) as u64, dlen as u64, dlen as u64 + 1, 1 << 31, 1 << 32, 1 << 63, u64::MAX];
+    let floats = ["0.0", "-1.0", "1e300", "1e-300", "48000.0", "-0.0"];
+    let mut int = |rng: &mut Rng| ints[rng.below(ints.len())].to_string();
+    let mut caps = vec![];
+    for _ in 0..rng.below(4) {
+        let mut f = vec![format!("\"core:sample_start\": {}", int(rng))];
+        if rng.chance(1, 2) {
+            f.push(format!("\"core:global_index\": {}", int(rng)));
+        }
+        if rng.chance(2, 3) {
+            f.push(format!("\"core:header_bytes\": {}", int(rng)));
+        }
+        if rng.chance(1, 2) {
+            f.push(format!("\"core:frequency\": {}", floats[rng.below(floats.len())]));
+        }
+        caps.push(format!("{{{}}}", f.join(", ")));
+    }
+    let mut anns = vec![];
+    for _ in 0..rng.below(3) {
+        let mut f = vec![format!("\"core:sample_start\": {}", int(rng))];
+        if rng.chance(2, 3) {
+            f.push(format!("\"core:sample_count\": {}", int(rng)));
+        }
+        if rng.chance(1, 2) {
+            f.push(format!("\"core:freq_lower_edge\": {}", floats[rng.below(floats.len())]));
+            f.push(format!("\"core:freq_upper_edge\": {}", floats[rng.below(floats.len())]));
+        }
+        anns.push(format!("{{{}}}", f.join(", ")));
+    }
+    let mut glob = vec!["\"core:datatype\": \"ru8_le\"".to_string(), "\"core:version\": \"1.1.0\"".to_string()];
+    if rng.chance(1, 2) {
+        glob.push(format!("\"core:sample_rate\": {}", floats[rng.below(floats.len())]));
+    }
+    if rng.chance(1, 2) {
+        glob.push(format!("\"core:num_channels\": {}", int(rng)));
+    }
+    let meta = format!("{{\"global\": {{{}}}, \"captures\": [{}], \"annotations\": [{}]}}", glob.join(", "), caps.join(", "), anns.join(", "));
+    let path = if kind == 5 {
+        let base = dir.join(format!("ext{idx}"));
+        std::fs::write(dir.join(format!("ext{idx}-meta")), meta.as_bytes()).unwrap();
+        std::fs::write(dir.join(format!("ext{idx}-data")), &data).unwrap();
+        base
+    } else {
+        let path = dir.join(format!("ext{idx}.sigmf"));
+        let f = std::fs::File::create(&path).unwrap();
+        let mut b = tar::Builder::new(f);
+        for (name, content) in [("r.sigmf-meta", meta.as_bytes()), ("r.sigmf-data", &data[..])] {
+            let mut h = tar::Header::new_gnu();
+            h.set_size(content.len() as u64);
+            h.set_mode(0o644);
+            h.set_cksum();
+            b.append_data(&mut h, name, content).unwrap();
+        }
+        b.finish().unwrap();
+        path
+    };
+    let r = quiet(|| {
+        match SigMFSourceBuilder::<u8>::new(path.clone()).repeat(rustradio::Repeat::finite(2)).build() {
+            Err(_) => {}
+            Ok((mut b, o)) => {
+                for _ in 0..50 {
+                    if b.work().is_err() {
+                        break;
+                    }
+                    let (rb, _) = o.read_buf().unwrap();
+                    let n = rb.len();
+                    rb.consume(n);
+                }
+            }
+        }
+    });
+    format!(
+        "!crash sigmf #{idx} kind={kind} meta={meta}\t{}",
+        if r.is_ok() { "pass".to_string() } else { format!("FAIL panic: {}", r.unwrap_err()) }
+    )
+}
+
 fn sigmf_bad(rng: &mut Rng, idx: usize, dir: &std::path::Path) -> String {
     let path = dir.join(format!("bad{idx}.sigmf"));
-    let kind = rng.below(5);
+    let kind = rng.below(7);
+    if kind >= 5 {
+        return sigmf_extreme(rng, idx, dir, kind);
+    }
     let metas: [&[u8]; 5] = [
         b"",
         b"{",
